@@ -365,6 +365,91 @@ def h_apply_align(eng, align, patch, existing_table):
         eng.check(any(a == 16 for a in tbl.values()), "the .align 16 of the patch left no alignment entry")
 
 
+def h_apply_align2(eng, b1_align, b2_align, mods, patch_align):
+    """Alignment requirements of existing blocks and of blocks a patch adds, when they meet: a patch that starts with
+    .align N spliced in at offset 0 of a block that has its own alignment entry (weaker, equal or stronger); a whole
+    block deleted in front of an aligned block (the fill after code must be nops in a code block)."""
+    import copy
+    from harness import rewrite_shapes
+    from gtirb_rewriting import _auxdata
+    spec = copy.deepcopy(rewrite_shapes.text_layout("o", annots=False))
+    blocks = spec["sections"][0]["blocks"]
+    blocks[1]["align"] = b1_align
+    blocks[2]["align"] = b2_align
+    spec["alignment_table"] = True
+    spec["mods"] = copy.deepcopy(mods)
+    sc = srh.Scenario(eng, spec)
+    for bid, a in (("b1", b1_align), ("b2", b2_align)):
+        if a:
+            eng.assume(sc.blocks[bid].address % a == 0)
+    sc.register()
+    sc.apply()
+    m = sc.module
+    tbl = _auxdata.alignment.get(m) or {}
+    in_module = set(m.byte_blocks)
+    # known finding: join_byte_intervals aligns only the first block of an interval that has an alignment entry, so a block
+    # with an entry that ends up behind another such block of the same (per-block) interval is not padded for
+    second_in_group = any(md["op"] == "insert" and md["patch"].startswith("lead_align") and md["at"] > 0
+                          and {"b1": b1_align, "b2": b2_align}.get(md["blk"]) for md in mods)
+    for blk, a in tbl.items():
+        eng.check(isinstance(blk, gtirb.ByteBlock) and blk in in_module,
+                  "C10/C05 the alignment table mentions a block that is not part of the module: %r" % (blk,))
+        eng.check(blk.address % a == 0, "a block with alignment %d is misaligned after the rewrite" % a,
+                  finding="C10-aligned-block-behind-another-aligned-block-of-its-interval" if second_in_group else None)
+    deleted = {md["blk"] for md in mods if md["op"] == "delete" and md["at"] == 0 and md["to"] == len(sc.atoms[md["blk"]])}
+    for bid, a in (("b1", b1_align), ("b2", b2_align)):
+        if a and bid not in deleted:
+            blk = sc.blocks[bid]
+            eng.check(blk in in_module, "block %s left the module" % bid)
+            eng.check(eng.must(tbl.get(blk, 1) % a == 0), "alignment requirement %d of existing block %s was weakened to %r" % (
+                a, bid, tbl.get(blk)))
+    if patch_align:
+        # the code of the patch starts at its label, which the patch aligned
+        for mi, md in enumerate(mods):
+            if md["op"] == "insert" and md["patch"].startswith("lead_align"):
+                syms = list(m.symbols_named("pl_%d" % mi))
+                eng.check(len(syms) == 1 and isinstance(syms[0].referent, gtirb.CodeBlock), "patch label pl_%d missing" % mi)
+                ref = syms[0].referent
+                eng.check(ref.address % patch_align == 0,
+                          "the block a patch aligned to %d (.align at the start of the patch) is not aligned after the rewrite" % patch_align,
+                          finding="C10-aligned-block-behind-another-aligned-block-of-its-interval" if second_in_group else None)
+    # fill: bounded, covered by blocks, nops in code blocks (this section holds only code)
+    total_before = 0
+    for bid, atoms in sc.atoms.items():
+        for j, a_ in enumerate(atoms):
+            gone = any(md["op"] == "delete" and md["blk"] == bid and md["at"] <= j < md["to"] for md in mods)
+            if not gone:
+                total_before = total_before + a_.length
+    patch_len = sum(len(res.text_section.data) for _, res in sc.patch_log)
+    total_got = 0
+    for bi in sc.sections[0].byte_intervals:
+        total_got = total_got + bi.size
+    fill = total_got - total_before - patch_len
+    eng.check(fill >= 0, "bytes were lost")
+    eng.check(fill < 2 * max([1, b1_align or 1, b2_align or 1, patch_align or 1]), "more padding than the alignments can require")
+    covered = 0
+    for blk in sc.sections[0].byte_blocks:
+        covered = covered + blk.size
+        eng.check(isinstance(blk, gtirb.CodeBlock), "padding after code is covered by a %s (must be nops in a code block)" % type(blk).__name__)
+    eng.check(covered == total_got, "padding bytes are not covered by blocks (or blocks overlap)")
+    # every byte that is neither an original byte nor a patch byte is a nop
+    own = set()
+    for atoms in sc.atoms.values():
+        own.update(a_.src for a_ in atoms)
+    for bi in sc.sections[0].byte_intervals:
+        c = bi.contents
+        if eng.sym and isinstance(c, Rope):
+            for (src, start, ln) in c.segs:
+                if src in own or src.startswith("lit:"):
+                    continue
+                eng.check(src == "rep:90" or eng.must(ln == 0), "fill bytes after code are %s, not nops" % src)
+    if not eng.sym:
+        data = b"".join(bytes(bi.contents) for bi in sorted(sc.sections[0].byte_intervals, key=lambda i: i.address))
+        known = b"".join(sc.sources[a_.src] for atoms in sc.atoms.values() for a_ in atoms)
+        eng.check(b"\x00\x00" not in data or b"\x00\x00" in known + b"".join(bytes(r.text_section.data) for _, r in sc.patch_log),
+                  "zero bytes were used as fill after code")
+
+
 # ---------------------------------------------------------------------------
 # straight-line bit-twiddling kernels: AST -> bit-vectors
 # ---------------------------------------------------------------------------
@@ -513,6 +598,18 @@ def make_check(tier):
                     timeout=1200)
     chk.add("applyalign/patch-align16/empty-table", h_apply_align,
             params=dict(align=16, patch="align16", existing_table="empty"), timeout=1200)
+    from harness.rewrite_shapes import ins as _ins, dele as _dele
+    for b1a in (None, 4, 16):
+        for pa in (4, 16):
+            chk.add("applyalign2/b1a%s/lead_align%d@0" % (b1a, pa), h_apply_align2,
+                    params=dict(b1_align=b1a, b2_align=8, mods=[_ins("b1", 0, "lead_align%d" % pa)], patch_align=pa), timeout=1200)
+    chk.add("applyalign2/b1a4/lead_align16@1", h_apply_align2,
+            params=dict(b1_align=4, b2_align=8, mods=[_ins("b1", 1, "lead_align16")], patch_align=16), timeout=1200)
+    for b2a in (4, 8, 16):
+        chk.add("applyalign2/delete-b1/b2a%d" % b2a, h_apply_align2,
+                params=dict(b1_align=None, b2_align=b2a, mods=[_dele("b1", 0, 3)], patch_align=None), timeout=1200)
+    chk.add("applyalign2/delete-b1-tail/b2a8", h_apply_align2,
+            params=dict(b1_align=None, b2_align=8, mods=[_dele("b1", 1, 3)], patch_align=None), timeout=1200)
     for which in ("align_address", "effective_alignment"):
         chk.add("kernel/" + which, h_kernels, params=dict(which=which))
     chk.bounds = {
